@@ -386,10 +386,20 @@ func init() {
 	register("runtime.SetFinalizer", func(fr *frame, a []value) value { return nil })
 	register("runtime.KeepAlive", func(fr *frame, a []value) value { return nil })
 	register("os.Getpid", func(fr *frame, a []value) value {
-		if v, ok := fr.run().flags["pid"]; ok {
-			return int(v)
+		if fr.g != nil && fr.g.pid != 0 {
+			return int(fr.g.pid)
 		}
 		return 4242
+	})
+	// liveness probe of another process: answered by the harness's process table
+	register("grog/internal/locking.processRunning", func(fr *frame, a []value) value {
+		pkg := fr.i.prog.ImportedPackage("grog/internal/locking")
+		fn := pkg.Func("verifProcessRunning")
+		if fn == nil {
+			panic(unsupported("processRunning: harness does not define verifProcessRunning"))
+		}
+		fr.sched().yieldPoint(fr.g, "liveness probe")
+		return call(fr.i, fr, token.NoPos, fn, a)
 	})
 	register("os.Getenv", func(fr *frame, a []value) value { return "" })
 	register("os.LookupEnv", func(fr *frame, a []value) value { return tuple{"", false} })
